@@ -95,4 +95,11 @@ theorem error_text_survives_wire (reg : Registry) (hl : Props.C01.Lawful reg) (r
     ∃ m, decode ⟨0, reg⟩ (bs ++ rest) = .ok (m, rest) ∧ metaLookup m.md serviceErrorKey = metaLookup res.md serviceErrorKey := by
   exact ⟨res, Props.C01.roundtrip_stream reg hl res hwf bs rest he hsz, rfl⟩
 
+/-- the same through the pooled-buffer encoder the server actually uses (`EncodeSlicePointer`,
+    interpreted from its regenerated write list), whatever stale bytes the pool buffer held -/
+theorem error_text_survives_wire_buf (reg : Registry) (hl : Props.C01.Lawful reg) (res : Msg) (hwf : Props.C01.WF res)
+    (stale bs rest : Bytes) (he : encodeBuf reg res stale = some bs) (hsz : bs.length < 4294967296) :
+    ∃ m, decode ⟨0, reg⟩ (bs ++ rest) = .ok (m, rest) ∧ metaLookup m.md serviceErrorKey = metaLookup res.md serviceErrorKey :=
+  ⟨_, Props.C01.roundtrip_buf reg hl res hwf stale bs rest he hsz, rfl⟩
+
 end Rpcx.Props.C07
